@@ -327,6 +327,7 @@ val hardcoded_ds : datasource
 type enc =
 | U8
 | U16
+| U32
 
 val len_utf8 : n -> nat
 
@@ -587,11 +588,16 @@ val bidi_paras :
 val bidi_info_new_gen :
   enc -> datasource -> bool -> n list -> nat option -> bidi_info res
 
+val bidi_info_new : enc -> datasource -> n list -> nat option -> bidi_info res
+
 type para_bidi_info = { pb_classes : bclass list; pb_levels : nat list;
                         pb_level : nat; pb_pure : bool }
 
 val para_bidi_info_new_gen :
   enc -> datasource -> bool -> n list -> nat option -> para_bidi_info res
+
+val para_bidi_info_new :
+  enc -> datasource -> n list -> nat option -> para_bidi_info res
 
 type l1_state = { l1_from : nat option; l1_prev : nat; l1_levels : nat list }
 
@@ -892,6 +898,8 @@ val n_list_eqb : n list -> n list -> bool
 
 val run_eqb : run -> run -> bool
 
+val para_eqb : para_info -> para_info -> bool
+
 val dir_eqb : direction -> direction -> bool
 
 val okb : 'a1 res -> ('a1 -> bool) -> bool
@@ -1040,3 +1048,5 @@ val iter16_run :
 val iter16_program : bool -> n list -> bool list -> n option list res
 
 val c18_iter_judge : n list -> bool list -> n option list res -> bool
+
+val lI_check : tcase -> bool
